@@ -1,13 +1,720 @@
-"""Helpers shared by the gossipsub property modules C34/C36 (comparison edges with normalised relations)."""
+"""Canonical (refactoring-insensitive) view of MIR expressions and guards, used by the gossipsub modules C30/C31/C33/C34/C36.
+
+Why: rules written against `mir.render` text depend on local / parameter names, on `?` vs `match`, on `a > b` vs `b < a`, on literal
+vs named constants, on `.as_ref()` / `&*` / `.clone()` wrappers and on closure numbering.  Everything here normalises those away:
+
+* `Canon.x(expr)`   parameters are `$i` (position), locals are `%id` unless the rule gave them a *structural role* name, upvars of a
+                    closure are replaced by what the parent captured (`^$1` = parent's first parameter), integer named constants are
+                    their value, value-transparent wrappers (Deref/AsRef/Borrow/Clone/Option::as_ref/copied/..) are dropped,
+                    `Try::branch(x)@Continue.0` is `x@Ok.0` / `x@Some.0`, optionally simple getters are inlined one level.
+* `Canon.atoms()`   every switch edge as normal-form facts: ("rel", op, x, y) | ("var", e, {variants}) | ("bool", e, truth); comparison
+                    calls (PartialOrd::lt ..), `Not`, `is_some/is_none/is_ok/is_err/is_empty` and `?` labels are normalised.
+* `rel_edges / var_edges / bool_edges / const_bound_edges`  edge sets on which a wanted fact is implied (mirrored / negated / stronger
+                    forms accepted), closed under bool hoisting with the engine's `derive_edges`.
+* `Cells`           finite-partition evaluation of a region of one body over semantic dimensions (variant / bool / numeric classes),
+                    path-sensitive in multi-def locals, independent of how the conditions are spelled.
+"""
+import itertools
 import re
 
 from . import mir
-from .mir import render
+from .mir import render, strip_generics
 
 NEG = {"Lt": "Ge", "Le": "Gt", "Gt": "Le", "Ge": "Lt", "Eq": "Ne", "Ne": "Eq"}
 FLIP = {"Lt": "Gt", "Le": "Ge", "Gt": "Lt", "Ge": "Le", "Eq": "Eq", "Ne": "Ne"}
+IMPLIES = {"Lt": {"Lt", "Le", "Ne"}, "Le": {"Le"}, "Gt": {"Gt", "Ge", "Ne"}, "Ge": {"Ge"}, "Eq": {"Eq", "Le", "Ge"}, "Ne": {"Ne"}}
+
+TRANSPARENT = re.compile(
+    r"ops::Deref(Mut)?>?::deref(_mut)?$|convert::AsRef>?::as_ref$|convert::AsMut>?::as_mut$|borrow::Borrow(Mut)?>?::borrow(_mut)?$|"
+    r"clone::Clone>?::clone$|clone::impls::clone$|Option::as_ref$|Option::as_mut$|Option::as_deref$|Option::as_deref_mut$|"
+    r"Option::copied$|Option::cloned$|Result::as_ref$|Result::as_mut$|Vec::as_slice$|Vec::as_mut_slice$|String::as_str$|"
+    r"BytesMut::as_ref$|hint::must_use$|convert::identity$|borrow::ToOwned>?::to_owned$")
+CMPCALL = re.compile(r"(?:PartialOrd|PartialEq|Ord|impls)>?::(lt|le|gt|ge|eq|ne)$")
+TRY = re.compile(r"ops::Try>::branch$")
+IS_CALL = re.compile(r"(Option::is_some|Option::is_none|Result::is_ok|Result::is_err)$")
+EMPTY_CALL = re.compile(r"::is_empty$")
+LEN_OF = {"std::vec::Vec::is_empty": "std::vec::Vec::len", "core::slice::is_empty": "core::slice::len", "std::collections::BTreeSet::is_empty": "std::collections::BTreeSet::len",
+          "std::collections::HashSet::is_empty": "std::collections::HashSet::len", "std::collections::HashMap::is_empty": "std::collections::HashMap::len",
+          "std::collections::VecDeque::is_empty": "std::collections::VecDeque::len", "core::str::is_empty": "core::str::len", "std::string::String::is_empty": "std::string::String::len"}
 
 
+def _try_kind(name):
+    return "Option" if "option::Option as" in name else "Result"
+
+
+def try_label(name, lab):
+    k = _try_kind(name)
+    return {"Continue": "Some" if k == "Option" else "Ok", "Break": "None" if k == "Option" else "Err"}.get(lab, lab)
+
+
+class Canon:
+    def __init__(self, prog, body, roles=None, inline=None, depth=0, parent=None, argmap=None):
+        self.prog, self.b = prog, body
+        self.roles = dict(roles or {})
+        self.inline = re.compile(inline) if isinstance(inline, str) else inline
+        lvl, pth = 0, body.parent
+        by_path = getattr(prog, "_gs2_paths", None)
+        if by_path is None:
+            by_path = prog._gs2_paths = {}
+        if body.crate not in by_path:
+            by_path[body.crate] = {bb.path: bb for bb in prog.bodies(body.crate)}
+        while pth:
+            lvl += 1
+            pb = by_path[body.crate].get(pth)
+            pth = pb.parent if pb is not None else None
+        self.depth = lvl
+        self._parent = parent
+        self.argmap = argmap
+        self._atoms = None
+        self._cap = {}
+
+    # ---------------------------------------------------------------- expressions
+    def x(self, e, d=0):
+        if d > 60:
+            return e
+        t = e[0]
+        pre = "c" * self.depth
+        if t == "arg":
+            if self.argmap is not None and 1 <= e[1] <= len(self.argmap):
+                return self.argmap[e[1] - 1]
+            return ("arg", e[1], self.roles.get(("arg", e[1])) or pre + "$%d" % e[1])
+        if t == "local":
+            return ("local", e[1], self.roles.get(e[1]) or pre + ("~" if self.argmap is not None else "") + "%%%d" % e[1])
+        if t == "upvar":
+            c = self.capture(e[1])
+            return c if c is not None else e
+        if t == "namedconst":
+            if isinstance(e[2], int):
+                return ("const", e[2], None)
+            return e
+        if t == "call":
+            name = strip_generics(e[1])
+            args = tuple(self.x(a, d + 1) for a in e[2])
+            if len(args) == 1 and TRANSPARENT.search(name):
+                return args[0]
+            if self.inline is not None and self.inline.search(name):
+                r = self._inline(name, args)
+                if r is not None:
+                    return r
+            return ("call", e[1], args, e[3])
+        if t == "bin":
+            return ("bin", e[1], self.x(e[2], d + 1), self.x(e[3], d + 1))
+        if t == "un":
+            a = self.x(e[2], d + 1)
+            if e[1] == "Not" and a[0] == "un" and a[1] == "Not":
+                return a[2]
+            return ("un", e[1], a)
+        if t == "cast":
+            return ("cast", self.x(e[1], d + 1), e[2])
+        if t == "field":
+            base = self.x(e[1], d + 1)
+            if base[0] == "agg" and base[1] in ("adt", "tuple"):
+                for fname, fe in base[4]:
+                    if fname == e[2]:
+                        return fe
+            return ("field", base, e[2], e[3])
+        if t == "downcast":
+            b0 = e[1]
+            if b0[0] == "call" and TRY.search(strip_generics(b0[1])) and b0[2]:
+                return ("downcast", self.x(b0[2][0], d + 1), try_label(b0[1], e[2]))
+            return ("downcast", self.x(b0, d + 1), e[2])
+        if t == "index":
+            return ("index", self.x(e[1], d + 1), self.x(e[2], d + 1))
+        if t == "cindex":
+            return ("cindex", self.x(e[1], d + 1), e[2], e[3])
+        if t == "discr":
+            b0 = e[1]
+            if b0[0] == "call" and TRY.search(strip_generics(b0[1])) and b0[2]:
+                return ("discr", self.x(b0[2][0], d + 1))
+            return ("discr", self.x(b0, d + 1))
+        if t == "agg":
+            return ("agg", e[1], e[2], e[3], tuple((f, self.x(v, d + 1)) for f, v in e[4]))
+        if t == "closure":
+            return ("closure", e[1], tuple(self.x(u, d + 1) for u in e[2]))
+        if t == "phi":
+            return ("phi", e[1], tuple(self.x(u, d + 1) for u in e[2]))
+        return e
+
+    def r(self, e):
+        return render(self.x(e))
+
+    def site(self, site):
+        return self.x(self.b.site_expr(site))
+
+    def rsite(self, site):
+        return render(self.site(site))
+
+    def args(self, site):
+        e = self.b.site_expr(site)
+        return [self.x(a) for a in e[2]] if e[0] == "call" else []
+
+    def init(self, l):
+        """Canonical initialiser of a local (its single whole definition), else None."""
+        ds = self.b.defs.get(l, [])
+        if len(ds) != 1:
+            return None
+        d = ds[0]
+        return self.x(self.b.rvalue_expr(d[3]) if d[0] == "stmt" else self.b.call_expr(d[3], d[1]))
+
+    def defs(self, l, self_name="#"):
+        """Canonical renders of all whole definitions of local l, the local itself rendered as `#`."""
+        rl = dict(self.roles)
+        rl[l] = self_name
+        c = Canon(self.prog, self.b, rl, self.inline, parent=self._parent)
+        out = []
+        for d in self.b.defs.get(l, []):
+            e = self.b.rvalue_expr(d[3]) if d[0] == "stmt" else self.b.call_expr(d[3], d[1])
+            out.append((mir.Site(self.b, d[1], d[2]), render(c.x(e))))
+        return out
+
+    def returns(self):
+        """(site, canonical expr) of every assignment to the return place."""
+        out = []
+        for d in self.b.defs.get(0, []):
+            e = self.b.rvalue_expr(d[3]) if d[0] == "stmt" else self.b.call_expr(d[3], d[1])
+            out.append((mir.Site(self.b, d[1], d[2]), self.x(e)))
+        return out
+
+    # ---------------------------------------------------------------- closures
+    def parent(self):
+        if self._parent is None and self.b.parent:
+            pb = self.prog._gs2_paths[self.b.crate].get(self.b.parent)
+            if pb is not None:
+                self._parent = Canon(self.prog, pb, None, self.inline)
+        return self._parent
+
+    def capture(self, upname):
+        if upname in self._cap:
+            return self._cap[upname]
+        res = None
+        idx = None
+        for u in self.b.raw.get("upnames", []) or []:
+            prs = [pr for pr in u.get("p", {}).get("pr", []) if pr.get("k") == "field"]
+            if prs and prs[0].get("n", "").split(":", 1)[-1] == upname:
+                idx = prs[0].get("i")
+        pc = self.parent()
+        if idx is not None and pc is not None:
+            pb = pc.b
+            for bi in pb.live:
+                for st in pb.blocks[bi]["stmts"]:
+                    if st["k"] == "assign" and st["r"]["k"] == "agg" and st["r"].get("def") == self.b.path:
+                        ops = st["r"]["ops"]
+                        if idx < len(ops):
+                            res = pc.x(pb.operand_expr(ops[idx]))
+        self._cap[upname] = res
+        return res
+
+    def closures_in(self, e):
+        """Canon objects of the closure bodies referenced in (raw or canonical) expression e, in order of appearance."""
+        out = []
+        for s in mir.walk(e):
+            if s[0] == "closure":
+                try:
+                    cb = self.prog.closure_body(self.b, s[1])
+                except mir.RuleError:
+                    continue
+                out.append(Canon(self.prog, cb, None, self.inline, parent=self))
+        return out
+
+    def _inline(self, name, args):
+        idx = getattr(self.prog, "_gs2_idx", None)
+        if idx is None:
+            idx = self.prog._gs2_idx = {}
+        key = self.b.crate
+        if key not in idx:
+            idx[key] = {bb.npath: bb for bb in self.prog.bodies(key) if bb.kind != "closure"}
+        cb = idx[key].get(name)
+        if cb is None or cb is self.b or cb.argc != len(args):
+            return None
+        if any(cb.blocks[bi]["term"] and cb.blocks[bi]["term"]["k"] == "switch" for bi in cb.live):
+            return None
+        ds = cb.defs.get(0, [])
+        if len(ds) != 1:
+            return None
+        d = ds[0]
+        e = cb.rvalue_expr(d[3]) if d[0] == "stmt" else cb.call_expr(d[3], d[1])
+        sub = Canon(self.prog, cb, None, None, argmap=list(args))
+        return sub.x(e)
+
+    # ---------------------------------------------------------------- guards
+    def cond_atoms(self, cond, label):
+        """Normal-form facts known when canonical switch condition `cond` takes the edge labelled `label`."""
+        return atoms_of(cond, label)
+
+    def switch(self, bb):
+        info = self.b.switch_info(bb)
+        if not info:
+            return None
+        cond, labs = info
+        c = self.x(cond)
+        if cond[0] == "discr" and cond[1][0] == "call" and TRY.search(strip_generics(cond[1][1])):
+            labs = {t: {try_label(cond[1][1], l) for l in ls} for t, ls in labs.items()}
+        return c, labs
+
+    def atoms(self):
+        """list of (bb, tgt, atom) for every switch edge with a single-label (or variant-set) meaning."""
+        if self._atoms is None:
+            out = []
+            for bi in sorted(self.b.live):
+                sw = self.switch(bi)
+                if not sw:
+                    continue
+                c, labs = sw
+                for tgt, ls in labs.items():
+                    for a in atoms_of(c, ls):
+                        out.append((bi, tgt, a))
+            self._atoms = out
+        return self._atoms
+
+    def noise(self, bb):
+        t = self.b.blocks[bb]["term"]
+        return bool(t) and (t.get("x", "").startswith("m:") or "tracing" in t.get("xs", ""))
+
+    def edges(self, pred):
+        """Edges carrying an atom that satisfies pred(atom) (raw: usable as start points).  `dominated` additionally closes
+        the set under bool hoisting."""
+        es = EdgeSet((bi, tgt) for bi, tgt, a in self.atoms() if pred(a))
+        es.pred = pred
+        return es
+
+    def closed(self, es):
+        pred = getattr(es, "pred", None)
+        if pred is None:
+            return set(es)
+
+        def dpred(e, rendered, want):
+            try:
+                return any(pred(a) for a in atoms_of(self.x(e), {want}))
+            except Exception:
+                return False
+        try:
+            return self.b.derive_edges(set(es), dpred)
+        except Exception:
+            return set(es)
+
+    def dominated(self, bb, edges, start=0):
+        es = self.closed(edges)
+        return bool(es) and self.b.must_pass_edges(bb, es, start)
+
+    def guards(self, bb):
+        """Atoms that hold on every path to bb (dominating switches with a restricted label set)."""
+        out = []
+        for text, labels, sw, cond in self.b.guards_on_all_paths(bb):
+            s = self.switch(sw)
+            if not s:
+                continue
+            c, labs = s
+            allowed = set()
+            for tgt, ls in labs.items():
+                if bb in self.b.reachable([tgt], blocked_nodes=[sw]) or tgt == bb:
+                    allowed |= ls
+            out.extend(atoms_of(c, allowed))
+        return out
+
+
+class EdgeSet(set):
+    pred = None
+
+    def __or__(self, o):
+        r = EdgeSet(set.__or__(self, o))
+        p1, p2 = self.pred, getattr(o, "pred", None)
+        r.pred = (lambda a: (p1 is not None and p1(a)) or (p2 is not None and p2(a))) if (p1 or p2) else None
+        return r
+
+
+def _as_cmp(c):
+    """(op, x, y) if canonical expr c is a comparison, looking through Not."""
+    neg = False
+    while c[0] == "un" and c[1] == "Not":
+        neg = not neg
+        c = c[2]
+    if c[0] == "bin" and c[1] in NEG:
+        return (NEG[c[1]] if neg else c[1], c[2], c[3]), None
+    if c[0] == "call" and len(c[2]) == 2:
+        m = CMPCALL.search(strip_generics(c[1]))
+        if m:
+            op = m.group(1).capitalize()
+            return (NEG[op] if neg else op, c[2][0], c[2][1]), None
+    return None, (c, neg)
+
+
+def atoms_of(c, labels):
+    """Normal-form facts implied by canonical condition c taking an edge whose label set is `labels`."""
+    labels = set(labels)
+    out = []
+    if c[0] == "discr":
+        vs = frozenset(l for l in labels if isinstance(l, str))
+        if vs:
+            out.append(("var", render(c[1]), vs))
+        return out
+    if labels <= {"true", "false"} and len(labels) == 1:
+        truth = "true" in labels
+        cmp_, rest = _as_cmp(c)
+        if cmp_:
+            op, x, y = cmp_
+            if not truth:
+                op = NEG[op]
+            out.append(("rel", op, render(x), render(y)))
+            return out
+        e, neg = rest
+        if neg:
+            truth = not truth
+        if e[0] == "call" and len(e[2]) == 1:
+            n = strip_generics(e[1])
+            m = IS_CALL.search(n)
+            if m:
+                pos = {"Option::is_some": "Some", "Option::is_none": "None", "Result::is_ok": "Ok", "Result::is_err": "Err"}[m.group(1)]
+                other = {"Some": "None", "None": "Some", "Ok": "Err", "Err": "Ok"}[pos]
+                out.append(("var", render(e[2][0]), frozenset({pos if truth else other})))
+                return out
+            if EMPTY_CALL.search(n):
+                ln = LEN_OF.get(n, n[:-len("is_empty")] + "len")
+                out.append(("rel", "Eq" if truth else "Ne", "%s(%s)" % (ln, render(e[2][0])), "0"))
+                return out
+        out.append(("bool", render(e), truth))
+        return out
+    if labels and all(isinstance(l, int) for l in labels) and len(labels) == 1:
+        out.append(("rel", "Eq", render(c), str(next(iter(labels)))))
+    elif labels:
+        out.append(("int", render(c), frozenset(labels)))
+    return out
+
+
+def rel_pred(xpat, ypat, want):
+    xr, yr = re.compile(xpat), re.compile(ypat)
+
+    def p(a):
+        if a[0] != "rel":
+            return False
+        _, op, x, y = a
+        if xr.search(x) and yr.search(y) and want in IMPLIES[op]:
+            return True
+        if xr.search(y) and yr.search(x) and want in IMPLIES[FLIP[op]]:
+            return True
+        return False
+    return p
+
+
+def _interval(op, k):
+    inf = float("inf")
+    return {"Lt": (-inf, k - 1), "Le": (-inf, k), "Gt": (k + 1, inf), "Ge": (k, inf), "Eq": (k, k)}.get(op)
+
+
+def const_pred(xpat, want, c):
+    """x `want` c for the integer constant c, implied by a comparison of x with any integer constant."""
+    xr = re.compile(xpat)
+
+    def p(a):
+        if a[0] != "rel":
+            return False
+        _, op, x, y = a
+        for o, l, r in ((op, x, y), (FLIP[op], y, x)):
+            if xr.search(l) and re.match(r"^-?\d+$", r):
+                k = int(r)
+                if o == "Ne":
+                    return want == "Ne" and k == c
+                lo, hi = _interval(o, k)
+                if want == "Ge" and lo >= c or want == "Gt" and lo > c or want == "Le" and hi <= c or want == "Lt" and hi < c or \
+                        want == "Eq" and lo == hi == c or want == "Ne" and (hi < c or lo > c):
+                    return True
+        return False
+    return p
+
+
+def var_pred(epat, variants):
+    er = re.compile(epat)
+    variants = set(variants)
+
+    def p(a):
+        return a[0] == "var" and er.search(a[1]) is not None and a[2] <= variants
+    return p
+
+
+def bool_pred(epat, truth=True):
+    er = re.compile(epat)
+
+    def p(a):
+        return a[0] == "bool" and a[2] == truth and er.search(a[1]) is not None
+    return p
+
+
+def result_edges(cx, call_bb):
+    """(ok_edges, err_edges) of the switch(es) on the Result/Option produced by the call in block call_bb — `?`, `match`, `if let`,
+    `let else`, is_ok()/is_some() tests are all recognised."""
+    ok, err = set(), set()
+    for bi in cx.b.live:
+        info = cx.b.switch_info(bi)
+        if not info:
+            continue
+        cond = info[0]
+        c = cond
+        while c[0] == "un" and c[1] == "Not":
+            c = c[2]
+        inner = None
+        if c[0] == "discr":
+            inner = c[1]
+        elif c[0] == "call" and IS_CALL.search(strip_generics(c[1])) and c[2]:
+            inner = c[2][0]
+        if inner is None:
+            continue
+        # peel Try::branch and transparent wrappers
+        while inner[0] == "call" and inner[2] and (TRY.search(strip_generics(inner[1])) or (len(inner[2]) == 1 and TRANSPARENT.search(strip_generics(inner[1])))) and inner[3] != call_bb:
+            inner = inner[2][0]
+        if not (inner[0] == "call" and inner[3] == call_bb):
+            continue
+        sw = cx.switch(bi)
+        for tgt, ls in sw[1].items():
+            for a in atoms_of(sw[0], ls):
+                if a[0] == "var":
+                    if a[2] <= {"Ok", "Some"}:
+                        ok.add((bi, tgt))
+                    elif a[2] <= {"Err", "None"}:
+                        err.add((bi, tgt))
+    return ok, err
+
+
+def counter_profile(cx, l):
+    """sorted canonical renders of the whole definitions of local l with the local itself written `#`."""
+    return sorted(r for _, r in cx.defs(l))
+
+
+def locals_in(e):
+    return [s[1] for s in mir.walk(e) if s[0] == "local"]
+
+
+def locals_compared_with(cx, ypat):
+    """multi-def locals that some switch compares with an operand whose canonical render matches ypat."""
+    yr = re.compile(ypat)
+    out = []
+    for bi in sorted(cx.b.live):
+        sw = cx.switch(bi)
+        if not sw:
+            continue
+        cmp_, _ = _as_cmp(sw[0])
+        if not cmp_:
+            continue
+        _, x, y = cmp_
+        for u, v in ((x, y), (y, x)):
+            if yr.search(render(v)):
+                for l in locals_in(u):
+                    if l not in out:
+                        out.append(l)
+    return out
+
+
+# ------------------------------------------------------------------------------------------------ finite-partition evaluation
+class VarDim:
+    def __init__(self, name, pat, domain):
+        self.name, self.rx, self.domain = name, re.compile(pat), list(domain)
+
+
+class BoolDim:
+    def __init__(self, name, pat):
+        self.name, self.rx, self.domain = name, re.compile(pat), [True, False]
+
+
+class NumDim:
+    """numeric expression compared with integer constants; classes = intervals induced by `consts` plus every constant the code
+    compares the expression with."""
+    def __init__(self, name, pat, consts=(), lo=0):
+        self.name, self.rx, self.consts, self.lo = name, re.compile(pat), set(consts), lo
+        self.domain = []
+
+    def finish(self):
+        inf = float("inf")
+        cs = sorted(c for c in self.consts if c >= self.lo)
+        dom, cur = [], self.lo
+        for c in cs:
+            if cur <= c - 1:
+                dom.append((cur, c - 1))
+            dom.append((c, c))
+            cur = c + 1
+        dom.append((cur, inf))
+        self.domain = dom
+
+
+class Cells:
+    def __init__(self, cx, dims, value_transparent=r"Option::take$|mem::take$|mem::replace$"):
+        self.cx, self.b, self.dims = cx, cx.b, dims
+        self.vt = re.compile(value_transparent)
+        self.unknown = set()
+        self.multi = {l for l, ds in self.b.defs.items() if isinstance(l, int) and len(ds) > 1}
+        # collect constants for numeric dims
+        for bi, tgt, a in cx.atoms():
+            if a[0] == "rel":
+                for x, y in ((a[2], a[3]), (a[3], a[2])):
+                    if re.match(r"^-?\d+$", y):
+                        for d in dims:
+                            if isinstance(d, NumDim) and d.rx.search(x):
+                                d.consts.add(int(y))
+        for d in dims:
+            if isinstance(d, NumDim):
+                d.finish()
+
+    def cells(self):
+        names = [d.name for d in self.dims]
+        for combo in itertools.product(*[d.domain for d in self.dims]):
+            yield dict(zip(names, combo))
+
+    # truth of one atom in a cell: True / False / None (not modelled)
+    def eval_atom(self, a, cell):
+        if a[0] == "var":
+            for d in self.dims:
+                if isinstance(d, VarDim) and d.rx.search(a[1]):
+                    return cell[d.name] in a[2]
+            return None
+        if a[0] == "bool":
+            for d in self.dims:
+                if isinstance(d, BoolDim) and d.rx.search(a[1]):
+                    return cell[d.name] == a[2]
+            return None
+        if a[0] == "rel":
+            _, op, x, y = a
+            for o, l, r in ((op, x, y), (FLIP[op], y, x)):
+                if re.match(r"^-?\d+$", r):
+                    k = int(r)
+                    for d in self.dims:
+                        if isinstance(d, NumDim) and d.rx.search(l):
+                            lo, hi = cell[d.name]
+                            if o == "Eq":
+                                return lo == hi == k
+                            if o == "Ne":
+                                return not (lo == hi == k)
+                            ilo, ihi = _interval(o, k)
+                            if lo >= ilo and hi <= ihi:
+                                return True
+                            if hi < ilo or lo > ihi:
+                                return False
+                            return None
+            for d in self.dims:
+                if isinstance(d, BoolDim) and (d.rx.search("%s(%s, %s)" % (op, x, y))):
+                    return cell[d.name]
+                if isinstance(d, BoolDim) and (d.rx.search("%s(%s, %s)" % (NEG[op], x, y))):
+                    return not cell[d.name]
+            return None
+        return None
+
+    def _env_value(self, e, env):
+        """canonical expression of e with multi-def locals replaced by their last definition on the path (value-transparent
+        wrappers like Option::take looked through)."""
+        cx = self.cx
+        for _ in range(8):
+            if e[0] == "call" and e[2] and self.vt.search(strip_generics(e[1])):
+                e = e[2][0]
+                continue
+            if e[0] == "local" and e[1] in env:
+                d = env[e[1]]
+                raw = self.b.rvalue_expr(self.b.blocks[d[1]]["stmts"][d[2]]["r"]) if d[0] == "stmt" else self.b.call_expr(self.b.blocks[d[1]]["term"], d[1])
+                e = cx.x(raw)
+                continue
+            break
+        return e
+
+    def _decide(self, bb, cell, env):
+        """Feasible successor blocks of switch block bb in this cell / path environment."""
+        sw = self.cx.switch(bb)
+        c, labs = sw
+        # environment evaluation (flags, Option-valued locals)
+        inner = c[1] if c[0] == "discr" else c
+        neg = False
+        while inner[0] == "un" and inner[1] == "Not":
+            neg = not neg
+            inner = inner[2]
+        probe = inner
+        while probe[0] == "call" and probe[2] and self.vt.search(strip_generics(probe[1])):
+            probe = probe[2][0]
+        if probe[0] == "local" and probe[1] in env:
+            v = self._env_value(inner, env)
+            if c[0] == "discr" and v[0] == "agg" and v[1] == "adt" and v[3]:
+                return [t for t, ls in labs.items() if v[3] in ls]
+            if c[0] != "discr":
+                tv = self._truth(v, cell, env)
+                if tv is not None:
+                    want = "true" if (tv != neg) else "false"
+                    return [t for t, ls in labs.items() if want in ls]
+        out = []
+        modelled = False
+        for tgt, ls in labs.items():
+            ats = atoms_of(c, ls)
+            verdicts = [self.eval_atom(a, cell) for a in ats]
+            if any(v is not None for v in verdicts):
+                modelled = True
+            if any(v is False for v in verdicts):
+                continue
+            out.append(tgt)
+        if not modelled and not self.cx.noise(bb):
+            self.unknown.add(render(c)[:160])
+        return out
+
+    def _truth(self, v, cell, env, depth=0):
+        if depth > 10:
+            return None
+        if v[0] == "const" and v[1] in (0, 1):
+            return bool(v[1])
+        if v[0] == "un" and v[1] == "Not":
+            t = self._truth(v[2], cell, env, depth + 1)
+            return None if t is None else not t
+        if v[0] == "local" and v[1] in env:
+            return self._truth(self._env_value(v, env), cell, env, depth + 1)
+        if v[0] == "bin" and v[1] in ("BitAnd", "BitOr"):
+            a, b = self._truth(v[2], cell, env, depth + 1), self._truth(v[3], cell, env, depth + 1)
+            if v[1] == "BitAnd":
+                return False if (a is False or b is False) else (True if a and b else None)
+            return True if (a or b) else (False if (a is False and b is False) else None)
+        ats = atoms_of(v, {"true"})
+        vs = [self.eval_atom(a, cell) for a in ats]
+        if vs and all(x is True for x in vs):
+            return True
+        if any(x is False for x in vs):
+            return False
+        return None
+
+    def run(self, cell, starts, result_bbs, budget=200000):
+        """Graph search over (block, env) from `starts`; stops at result blocks.  Returns list of (result_bb | None, env)."""
+        results = []
+        seen = set()
+        stack = [(s, ()) for s in starts]
+        n = 0
+        while stack:
+            b, envt = stack.pop()
+            if (b, envt) in seen:
+                continue
+            seen.add((b, envt))
+            n += 1
+            if n > budget:
+                raise mir.RuleError("cell budget exceeded in %s" % self.b.npath)
+            env = dict(envt)
+            blk = self.b.blocks[b]
+            ch = False
+            for si, st in enumerate(blk["stmts"]):
+                if st["k"] == "assign" and "pr" not in st["p"] and st["p"]["l"] in self.multi:
+                    env[st["p"]["l"]] = ("stmt", b, si)
+                    ch = True
+            t = blk["term"]
+            if t and t["k"] == "call" and "pr" not in t["d"] and t["d"]["l"] in self.multi:
+                env[t["d"]["l"]] = ("call", b, None)
+                ch = True
+            if ch:
+                envt = tuple(sorted(env.items()))
+            if b in result_bbs:
+                results.append((b, env))
+                continue
+            if t and t["k"] == "switch":
+                nxt = self._decide(b, cell, env)
+            else:
+                nxt = self.b.succ[b]
+                if not nxt and t and t["k"] == "return":
+                    results.append((None, env))
+            for s2 in nxt:
+                stack.append((s2, envt))
+        return results
+
+    def env_expr(self, e, env):
+        """canonical expression e with multi-def locals resolved to their last definition on the path"""
+        return self._env_value(e, env)
+
+
+# ------------------------------------------------------------------------------------------------ legacy helpers (raw renders)
 def edge_facts(body):
     """For every comparison switch: list of (bb, tgt, op, lhs_expr, rhs_expr) meaning `lhs op rhs` holds on edge bb->tgt."""
     out = []
